@@ -485,7 +485,7 @@ func TestC16(t *testing.T) {
 	}
 	shrinkTime = "1s" // a stuck workload costs 30 s per attempt: do not spend minutes shrinking it
 	defer func() { shrinkTime = "20s" }()
-	rapidCases(h, "workloads", env.PerShard(env.Pick(400, 3200)), func(rt *rapid.T) isoCase {
+	rapidCases(h, "workloads", env.PerShard(env.Pick(400, 32000)), func(rt *rapid.T) isoCase {
 		return isoCase{Seed: rapid.Uint64Range(1, 1<<40).Draw(rt, "seed"), Conns: rapid.IntRange(1, 8).Draw(rt, "conns"),
 			Workers: rapid.IntRange(2, maxW).Draw(rt, "workers"), Noise: rapid.IntRange(0, 4).Draw(rt, "noise"),
 			Ops: rapid.IntRange(50, 200).Draw(rt, "ops"), Native: rapid.Bool().Draw(rt, "native"), Perturb: rapid.Bool().Draw(rt, "perturb")}
